@@ -17,6 +17,11 @@ type RevSpec struct {
 	InObjStm    map[int]bool // objects to pack into object streams (stream revisions only)
 	ObjStms     int          // how many containers to spread them over (>=1)
 	ObjStmFlate bool
+	// ForwardPrev (first revision, classic table): the layout of a linearized file - a
+	// first cross-reference section near the start of the file covers a run of objects,
+	// its /Prev points FORWARD to the main section at the end, and startxref names the
+	// first section.
+	ForwardPrev      bool
 	TableAfterStream bool // allow a classic table in an update of a file that already has a cross-reference stream
 	XRefFlate   int    // 0 none, 1 flate, 2 flate + PNG Up predictor
 	WidePad     int    // extra bytes in /W fields
@@ -220,6 +225,50 @@ func (w *Writer) Commit(rs RevSpec) []byte {
 		}
 		plainNums = sh
 	}
+	// forward layout: reserve the first section now, fill it in when the offsets are known
+	var fwdSet map[int]bool
+	fwdOff, fwdPrevPos := -1, -1
+	fwdEntryPos := map[int]int{}
+	if rs.ForwardPrev && w.revs == 0 && !rs.XRefStream && len(containers) == 0 && len(plainNums) >= 4 {
+		sorted := append([]int{}, plainNums...)
+		sort.Ints(sorted)
+		// a run of consecutive object numbers
+		i := w.r.Intn(len(sorted) - 1)
+		j := i
+		for j+1 < len(sorted) && sorted[j+1] == sorted[j]+1 && j-i < len(sorted)/2 {
+			j++
+		}
+		fwdSet = map[int]bool{}
+		fwdOff = w.buf.Len()
+		fmt.Fprintf(&w.buf, "xref%s%d %d%s", w.eol(), sorted[i], j-i+1, w.eol())
+		eol2 := " \n"
+		switch w.st.EOL {
+		case "\r\n":
+			eol2 = "\r\n"
+		case "\r":
+			eol2 = " \r"
+		}
+		for k := i; k <= j; k++ {
+			fwdSet[sorted[k]] = true
+			fwdEntryPos[sorted[k]] = w.buf.Len()
+			fmt.Fprintf(&w.buf, "%010d %05d n%s", 0, 0, eol2)
+		}
+		w.buf.WriteString("trailer" + w.eol())
+		tr := Dict{{"Size", w.next}, {"Root", w.out.Root}}
+		if w.out.Info != nil {
+			tr = append(tr, KV{"Info", *w.out.Info})
+		}
+		w.buf.Write(Serialise(tr, Style{EOL: w.st.EOL}, w.r))
+		// the /Prev entry is written by hand at a known place: ten digits, patched below
+		b := w.buf.Bytes()
+		if n := len(b); n >= 2 && b[n-1] == '>' && b[n-2] == '>' {
+			w.buf.Truncate(n - 2)
+			w.buf.WriteString(" /Prev ")
+			fwdPrevPos = w.buf.Len()
+			w.buf.WriteString("0000000000 >>")
+		}
+		w.buf.WriteString(w.eol())
+	}
 	for _, num := range plainNums {
 		var o Obj
 		if c, ok := containers[num]; ok {
@@ -354,6 +403,15 @@ func (w *Writer) Commit(rs RevSpec) []byte {
 	} else {
 		w.buf.WriteString("xref" + w.eol())
 		nums := SortedNums(locs)
+		if fwdSet != nil {
+			var rest []int
+			for _, n := range nums {
+				if !fwdSet[n] {
+					rest = append(rest, n)
+				}
+			}
+			nums = rest
+		}
 		for i := 0; i < len(nums); {
 			j := i
 			for j+1 < len(nums) && nums[j+1] == nums[j]+1 {
@@ -409,6 +467,15 @@ func (w *Writer) Commit(rs RevSpec) []byte {
 		w.buf.WriteString("trailer" + w.eol())
 		w.buf.Write(Serialise(trailer, w.st, w.r))
 		w.buf.WriteString(w.eol())
+	}
+	if fwdSet != nil && fwdPrevPos >= 0 {
+		b := w.buf.Bytes()
+		copy(b[fwdPrevPos:], fmt.Sprintf("%010d", xrefOff))
+		for num, pos := range fwdEntryPos {
+			l := written[num]
+			copy(b[pos:], fmt.Sprintf("%010d %05d", l.a, l.b))
+		}
+		xrefOff = fwdOff // the file is entered through the first section
 	}
 	fmt.Fprintf(&w.buf, "startxref%s%d%s%%%%EOF", w.eol(), xrefOff, w.eol())
 	if w.r.Pct(80) {
